@@ -493,12 +493,17 @@ def translate(repo=None):
     tree = ast.parse(open(path).read())
     consts = module_consts(tree, path)
     fns = {s.name: s for s in tree.body if isinstance(s, ast.FunctionDef)}
-    kernels = {}
+    kernels, failures = {}, {}
     for name in ORDER:
-        if name not in fns:
-            raise Untranslatable(path, "kernel %s not found" % name)
-        kernels[name] = Tr(fns[name], SIG[name], consts, kernels, SRC_REL).run()
-    return dict(consts=consts, kernels=kernels)
+        # fail-closed PER KERNEL: a kernel that cannot be translated is omitted from the output (so every theorem that
+        # mentions it, or a kernel calling it, stops compiling) and reported; the other kernels are unaffected
+        try:
+            if name not in fns:
+                raise Untranslatable(path, "kernel %s not found" % name)
+            kernels[name] = Tr(fns[name], SIG[name], consts, kernels, SRC_REL).run()
+        except Untranslatable as ex:
+            failures[name] = str(ex)
+    return dict(consts=consts, kernels=kernels, failures=failures)
 
 
 # ---------------------------------------------------------------------------------------------
@@ -854,11 +859,15 @@ def wiring(repo=None):
     path = os.path.join(repo, WRAP_REL)
     tree = ast.parse(open(path).read())
     fns = {s.name: s for s in tree.body if isinstance(s, ast.FunctionDef)}
-    res = {}
+    res, failures = {}, {}
     for w, stem in WRAPPERS.items():
-        if w not in fns:
-            raise Untranslatable(path, "wrapper %s not found" % w)
-        res[w] = wire_one(fns[w], stem, WRAP_REL)
+        try:
+            if w not in fns:
+                raise Untranslatable(path, "wrapper %s not found" % w)
+            res[w] = wire_one(fns[w], stem, WRAP_REL)
+        except Untranslatable as ex:
+            failures[w] = str(ex)
+    res["__failures__"] = failures
     return res
 
 
@@ -1108,23 +1117,46 @@ def generate(repo=None):
             raise Untranslatable(SRC_REL, "module constant named " + c)
     txt = HEADER % (SRC_REL, WRAP_REL, "".join("Definition %s : R := %s.\n" % (c, q(v)) for c, v in ir["consts"].items()))
     for name in ORDER:
+        if name not in ir["kernels"]:
+            txt += "(* %s: NOT TRANSLATED -- %s *)\n\n" % (name, ir["failures"].get(name, "").replace("*)", "* )"))
+            continue
         k = ir["kernels"][name]
         t, probes = pr.kernel(k)
         txt += t
         if name in ("softmax_forward", "log_softmax_forward", "cross_entropy_loss_forward"):
             inter = pr.intermediates(k, probes)
             if not inter:
-                raise Untranslatable(SRC_REL, "%s is no longer straight-line: intermediates cannot be listed" % name)
+                ir["failures"][name + "/intermediates"] = "%s is no longer straight-line: intermediates cannot be listed" % name
             txt += inter
         txt += "\n"
-    for name in WRAPPERS:
-        txt += print_wiring(ir, w[name]) + "\n"
+    wf = w["__failures__"]
+    for name, stem in WRAPPERS.items():
+        if name in wf:
+            txt += "(* wrapper %s: NOT TRANSLATED -- %s *)\n\n" % (name, wf[name].replace("*)", "* )"))
+            continue
+        if stem + "_forward" not in ir["kernels"] or stem + "_backward" not in ir["kernels"]:
+            wf[name] = "a kernel of wrapper %s was not translated" % name
+            continue
+        try:
+            txt += print_wiring(ir, w[name]) + "\n"
+        except Untranslatable as ex:
+            wf[name] = str(ex)
     return ir, w, txt
+
+
+def all_failures(ir, w):
+    """{kernel or 'wrapper:<name>': reason}"""
+    d = dict(ir["failures"])
+    d.update({"wrapper:" + k: v for k, v in w["__failures__"].items()})
+    return d
 
 
 @register("veckernels")
 def gen():
     ir, w, txt = generate()
     changed = common.write_if_changed(os.path.join(common.COQ, OUT_REL), txt)
-    print("py2coq veckernels: %d kernels, %d wrappers -> %s%s" % (len(ir["kernels"]), len(w), OUT_REL, "" if changed else " (unchanged)"))
+    fails = all_failures(ir, w)
+    if fails:
+        raise Untranslatable(OUT_REL, "written without: " + "; ".join("%s (%s)" % kv for kv in fails.items()))
+    print("py2coq veckernels: %d kernels, %d wrappers -> %s%s" % (len(ir["kernels"]), len(w) - 1, OUT_REL, "" if changed else " (unchanged)"))
     return ir, w
